@@ -770,6 +770,7 @@ def shard_diff(st, wd, li):
         DIFF_DOCS[3]), "argv": ["--arrays=position"]})
     if li == 0:
         diff_index_family(st, wd)
+        diff_empty_family(st, wd)
 
 
 # streams of one to three documents; -L / -R each given or not: the report is
@@ -842,6 +843,47 @@ def diff_index_family(st, wd):
                         elif res.out != want_out:
                             st.fail("yaml-diff|index|stdout", case,
                                     want_out[:300], res.out[:300])
+
+
+# sources which hold no document at all (a zero-byte file, nothing but a
+# comment) next to ones which do: such a source is the one empty document,
+# from a file as from standard input
+EMPTY_SOURCES = ["", "# only a comment\n", "---\n", "a: 1\n"]
+
+
+def diff_empty_family(st, wd):
+    lfile = os.path.join(wd, "le.yaml")
+    rfile = os.path.join(wd, "re.yaml")
+    for ltext in EMPTY_SOURCES:
+        cli.write(lfile, ltext)
+        for rtext in EMPTY_SOURCES:
+            cli.write(rfile, rtext)
+            differs = (ltext == "a: 1\n") != (rtext == "a: 1\n")
+            outs = []
+            for delivery in ("files", "rhs-stdin"):
+                if delivery == "files":
+                    res = cli.run("yaml-diff", [lfile, rfile])
+                else:
+                    res = cli.run("yaml-diff", [lfile, "-"], stdin=rtext)
+                case = {"tool": "yaml-diff", "lhs": ltext, "rhs": rtext,
+                        "argv": [], "delivery": delivery, "family": "empty"}
+                note(st, "yaml-diff", res, ("empty", delivery), "empty")
+                if crashed(st, "yaml-diff", res, case):
+                    continue
+                outs.append(res.out)
+                if (res.code == 0) == differs or res.code not in (0, 1) or (
+                        not differs and res.out):
+                    st.fail("yaml-diff|empty-source|exit-status", case,
+                            "0 and no report iff both sources hold the same "
+                            "data (differ=%s)" % differs,
+                            "%r %r %r" % (res.code, res.out[:80],
+                                          res.err[:120]))
+            if len(outs) == 2 and outs[0] != outs[1]:
+                st.fail("yaml-diff|empty-source|delivery", {
+                    "tool": "yaml-diff", "lhs": ltext, "rhs": rtext,
+                    "argv": [], "delivery": "both", "family": "empty"},
+                    "one report whatever the delivery", "%r / %r" % (
+                        outs[0][:100], outs[1][:100]))
 
 
 # --------------------------------------------------------------- yaml-validate
